@@ -1307,6 +1307,8 @@ class DequeV:
 def deque_model(it, name, fn, args, dest_ty):
     if name in ("new", "with_capacity", "default"):
         return DequeV([])
+    if name in ("reserve", "reserve_exact", "shrink_to_fit", "shrink_to"):
+        return Tup([])
     if not args or not isinstance(args[0], Ref):
         return NotImplemented
     r = args[0]
